@@ -531,7 +531,22 @@ def mgrAnswer (ws : List String) : String :=
       | some (k, v) => "diff arm=" ++ arm ++ " model=" ++ k ++ ":" ++ v
       | none => "ok arm=" ++ arm
 
+def zeroAnswer (ws : List String) : String :=
+  match splitArrow ws with
+  | none => "bad-case"
+  | some (pre, post) =>
+    match pre.head?, kvOf pre "first", kvOf pre "op", kvOf post "res" with
+    | some sec, some first, some op, some res =>
+      let arm := "zero-" ++ sec ++ "-" ++ (if first == "-" then "fresh" else "refused") ++ "-" ++ op ++ "-" ++ res
+      let failed := (Util.zeroClauses res).filter (fun c => !c.2)
+      if !failed.isEmpty then "propfail " ++ ",".intercalate (failed.map (·.1)) ++ " arm=" ++ arm
+      else if res != "ok" && res != "err" then "diff arm=" ++ arm ++ " model=res:ok|err"
+      -- the empty object `{}` and the defaults are accepted by every section but the identity (no key in `{}`)
+      else "ok arm=" ++ arm
+    | _, _, _, _ => "bad-case"
+
 def answer (ws : List String) : String :=
+  if ws.head? == some "zero" then zeroAnswer (ws.drop 1) else
   if ws.head? == some "ident" then Ident.answer (ws.drop 1) else
   if ws.head? == some "disp" then Disp.answer (ws.drop 1) else
   if ws.head? == some "rlib" then Ident.rlibAnswer (ws.drop 1) else
